@@ -21,7 +21,7 @@ def add(fid, file, name, sig, atoms, cases, oracle, ty, prop, hook=None, post=No
 
 FILES = {'Fq2': 'src/fields/fq2.rs', 'Fq4': 'src/fields/fq4.rs', 'Fq12': 'src/fields/fq12.rs'}
 PROPS = {'Fq2': ('C12',), 'Fq4': ('C17',), 'Fq12': ('C17', 'C11')}
-TYRE = {'Fq2': r'fq2::Fq2', 'Fq4': r'Fq4', 'Fq12': r'Fq12'}
+TYRE = {'Fq2': r'Fq2', 'Fq4': r'Fq4', 'Fq12': r'Fq12'}
 
 def nr12(A, a):
     return mk('Fq12', [A.nonresidue_times('Fq4', a[2][2]), a[2][0], a[2][1]])
